@@ -112,7 +112,21 @@ func (e *Engine) evalGhostCall(c *FnCtx, env *Env, x *ECall) (Val, bool) {
 		name := x.Args[0].(*EIdent).Name
 		v, ok := c.lastCall[name]
 		if !ok {
-			panic(specError("lastcall(" + name + "): no such call on this path"))
+			// the verified code never calls it: the term denotes some value of the callee's result type about which
+			// nothing is known (so a clause that pins it down fails as an ordinary obligation, not as a malformed contract)
+			fn := c.eng.trackedSig(name)
+			if fn == nil {
+				panic(specError("lastcall(" + name + "): no such call on this path"))
+			}
+			rs := fn.Signature.Results()
+			if rs.Len() == 1 {
+				v = c.fresh("nocall$"+name, rs.At(0).Type(), env.st)
+			} else {
+				for k := 0; k < rs.Len(); k++ {
+					v.Tuple = append(v.Tuple, c.fresh("nocall$"+name, rs.At(k).Type(), env.st))
+				}
+			}
+			c.lastCall[name] = v
 		}
 		if len(x.Args) > 1 {
 			// lastcall(callee, k): k-th result of a multi-valued callee
@@ -245,7 +259,44 @@ func (e *Engine) evalGhostCall(c *FnCtx, env *Env, x *ECall) (Val, bool) {
 		comp := "ghost$arg$" + name + "$" + k
 		t, ok := c.trackArgT[comp]
 		if !ok {
+			if fn := c.eng.trackedSig(name); fn != nil {
+				if kk, _ := strconv.Atoi(k); kk < len(fn.Params) {
+					t, ok = fn.Params[kk].Type(), true
+					c.comp(comp, c.ty.SortOf(t), t)
+					c.trackArgT[comp] = t
+				}
+			}
+		}
+		if !ok {
 			panic(specError("lastarg(" + name + "," + k + "): no tracked call"))
+		}
+		return Val{T: t, E: c.heapGet(env.st, comp)}, true
+	case "lastargelem":
+		// lastargelem(F, k, i): element i of the k-th (slice) argument of the latest tracked call of F, as it was at the call
+		name := x.Args[0].(*EIdent).Name
+		c.mustTrack(name, "lastargelem")
+		comp := "ghost$argelem$" + name + "$" + x.Args[1].(*EInt).V + "$" + x.Args[2].(*EInt).V
+		t, ok := c.trackArgT[comp]
+		if !ok {
+			// never called, or called with fewer elements / a slice of unknown length: some value nothing is known about
+			var at types.Type
+			if t0, seen := c.trackArgT["ghost$arg$"+name+"$"+x.Args[1].(*EInt).V]; seen {
+				at = t0
+			} else if fn := c.eng.trackedSig(name); fn != nil {
+				if kk, _ := strconv.Atoi(x.Args[1].(*EInt).V); kk < len(fn.Params) {
+					at = fn.Params[kk].Type()
+				}
+			}
+			if at != nil {
+				if slt, isS := at.Underlying().(*types.Slice); isS {
+					t, ok = slt.Elem(), true
+					c.comp(comp, c.ty.SortOf(t), t)
+					c.trackArgT[comp] = t
+				}
+			}
+		}
+		if !ok {
+			panic(specError("lastargelem(" + name + ",...): no snapshot (the argument is not a slice of statically known short length)"))
 		}
 		return Val{T: t, E: c.heapGet(env.st, comp)}, true
 	case "lastheld", "lastheldW", "lastgen":
@@ -607,6 +658,36 @@ func init() {
 }
 
 var _ = fmt.Sprintf
+
+// anyTracked: some call of the named callee was seen in the verified code.
+func (c *FnCtx) anyTracked(name string) bool {
+	for k := range c.trackArgT {
+		if strings.HasPrefix(k, "ghost$arg$"+name+"$") {
+			return true
+		}
+	}
+	return false
+}
+
+// trackedSig: the module's function of that name, when there is exactly one signature it can mean; used to type the
+// call-log terms of a tracked callee that the verified code does not call at all.
+func (e *Engine) trackedSig(name string) *ssa.Function {
+	var found *ssa.Function
+	for _, fn := range e.funcByKey {
+		if fn.Name() != name || fn.Parent() != nil {
+			continue
+		}
+		if found != nil && found.Signature.String() != fn.Signature.String() {
+			return nil
+		}
+		if found == nil || e.funcByKeyName(fn) < e.funcByKeyName(found) {
+			found = fn
+		}
+	}
+	return found
+}
+
+func (e *Engine) funcByKeyName(fn *ssa.Function) string { return e.funcPkgPath(fn) + "." + funcKey(fn) }
 
 // mustTrack: ghost call counters exist only for the callees the contract being verified tracks; a callee's clause that
 // speaks about calls the caller does not track has no meaning at that call site (and is skipped there).
